@@ -528,6 +528,7 @@ func (s *SendStream) CancelWrite(errorCode StreamErrorCode) {
 					retransmissionQueue = append(retransmissionQueue, f)
 				} else {
 					f.Data = f.Data[:reliableOffset-f.Offset]
+					f.Fin = false // the frame doesn't end at the final size anymore
 					retransmissionQueue = append(retransmissionQueue, f)
 				}
 			}
@@ -715,6 +716,7 @@ func (s *sendStreamAckHandler) OnLost(f wire.Frame) {
 		// truncate the frame to the reliable size.
 		if sf.Offset+sf.DataLen() > (*SendStream)(s).reliableOffset() {
 			sf.Data = sf.Data[:(*SendStream)(s).reliableOffset()-sf.Offset]
+			sf.Fin = false // the frame doesn't end at the final size anymore
 		}
 	}
 
